@@ -24,6 +24,8 @@ import (
 	"time"
 
 	abci "github.com/cometbft/cometbft/abci/types"
+	cmted25519 "github.com/cometbft/cometbft/crypto/ed25519"
+	cmtcryptoenc "github.com/cometbft/cometbft/crypto/encoding"
 	cmtproto "github.com/cometbft/cometbft/proto/tendermint/types"
 	cmtversion "github.com/cometbft/cometbft/proto/tendermint/version"
 	cmtcoretypes "github.com/cometbft/cometbft/rpc/core/types"
@@ -113,6 +115,17 @@ func (p *prng) intn(n int) int {
 }
 
 func clone(b []byte) []byte { return append([]byte(nil), b...) }
+
+// pickUniform chooses one of n alternatives uniformly. rapid's integer generators are biased
+// towards small values on purpose; for the choice of a mutation operator that bias would starve
+// most operators, so the drawn number is hashed first (still a pure function of the draw).
+func pickUniform(t *rapid.T, label string, n int) int {
+	return newPrng(rapid.Uint64().Draw(t, label)).intn(n)
+}
+
+func pickString(t *rapid.T, label string, xs []string) string {
+	return xs[pickUniform(t, label, len(xs))]
+}
 
 func short(b []byte) string {
 	if len(b) <= 24 {
@@ -496,6 +509,7 @@ type bctx struct {
 }
 
 func (c *bctx) intn(label string, n int) int { return rapid.IntRange(0, n-1).Draw(c.t, label) }
+func (c *bctx) pick(label string, n int) int { return pickUniform(c.t, label, n) }
 func (c *bctx) xor(label string) byte        { return byte(rapid.IntRange(1, 255).Draw(c.t, label)) }
 func (c *bctx) bit(label string) byte        { return 1 << uint(rapid.IntRange(0, 7).Draw(c.t, label)) }
 func (c *bctx) setMeta(hdr, lc []byte) {
@@ -593,7 +607,7 @@ func init() {
 			return v != h
 		}},
 		{"hash", func(c *bctx) bool {
-			switch c.intn("mode", 3) {
+			switch c.pick("mode", 3) {
 			case 0:
 				i := c.intn("i", 32)
 				c.m.Hash[i] ^= c.bit("bit")
@@ -649,7 +663,7 @@ func init() {
 			return n != c.p.blk.StateRoot.Type
 		}},
 		{"sr-hash", func(c *bctx) bool {
-			switch c.intn("mode", 3) {
+			switch c.pick("mode", 3) {
 			case 0:
 				c.m.StateRoot.Hash[c.intn("i", 32)] ^= c.bit("bit")
 			case 1:
@@ -720,7 +734,7 @@ func init() {
 		}},
 		{"meta-dup-key", func(c *bctx) bool {
 			first, second := c.p.hdr, c.other.hdr
-			if c.intn("which", 2) == 0 {
+			if c.pick("which", 2) == 0 {
 				first, second = second, first
 			}
 			c.m.Meta = rawMap([]rawEntry{{"header", cborBstr(first, 0)}, {"header", cborBstr(second, 0)}, {"last_commit", cborBstr(c.p.lc, 0)}}, 0, 0)
@@ -728,7 +742,7 @@ func init() {
 			return true
 		}},
 		{"meta-indef", func(c *bctx) bool {
-			if c.intn("mode", 2) == 0 {
+			if c.pick("mode", 2) == 0 {
 				b := []byte{0xbf}
 				b = append(b, cborTstr("header", 0)...)
 				b = append(b, cborBstr(c.p.hdr, 0)...)
@@ -746,7 +760,7 @@ func init() {
 			return true
 		}},
 		{"meta-tag", func(c *bctx) bool {
-			if c.intn("mode", 2) == 0 {
+			if c.pick("mode", 2) == 0 {
 				c.m.Meta = append([]byte{0xd9, 0xd9, 0xf7}, c.p.blk.Meta...)
 				c.detail = "Meta wrapped in the self-describe CBOR tag"
 			} else {
@@ -756,7 +770,7 @@ func init() {
 			return true
 		}},
 		{"meta-shape", func(c *bctx) bool {
-			switch c.intn("mode", 3) {
+			switch c.pick("mode", 3) {
 			case 0:
 				c.m.Meta = append(cborHead(4, 2, 0), append(cborBstr(c.p.hdr, 0), cborBstr(c.p.lc, 0)...)...)
 				c.detail = "Meta as array [header, last_commit]"
@@ -771,7 +785,7 @@ func init() {
 		}},
 		{"meta-swap-fields", func(c *bctx) bool { c.setMeta(c.p.lc, c.p.hdr); c.detail = "Meta header <-> last_commit"; return true }},
 		{"meta-header-other", func(c *bctx) bool {
-			switch c.intn("mode", 2) {
+			switch c.pick("mode", 2) {
 			case 0:
 				c.setMeta(c.other.hdr, c.p.lc)
 				c.detail = "Meta.header = header of another block"
@@ -782,7 +796,7 @@ func init() {
 			return true
 		}},
 		{"meta-lc-other", func(c *bctx) bool {
-			switch c.intn("mode", 2) {
+			switch c.pick("mode", 2) {
 			case 0:
 				c.setMeta(c.p.hdr, c.other.lc)
 				c.detail = "Meta.last_commit = last commit of another block"
@@ -799,7 +813,7 @@ func init() {
 			lOff := len(raw) - len(c.p.lc)
 			// regions: CBOR framing, header bytes, head of the last commit (height, round, block id), all
 			var lo, hi int
-			switch c.intn("region", 5) {
+			switch c.pick("region", 5) {
 			case 0:
 				lo, hi = 0, hOff
 			case 1:
@@ -818,7 +832,7 @@ func init() {
 				lo, hi = 0, len(raw)
 			}
 			pos := lo + c.intn("pos", hi-lo)
-			switch c.intn("kind", 4) {
+			switch c.pick("kind", 4) {
 			case 0, 1:
 				bit := c.bit("bit")
 				raw[pos] ^= bit
@@ -837,7 +851,7 @@ func init() {
 
 		// ---- inside the protobuf header bytes
 		{"hdr-bytes", func(c *bctx) bool {
-			switch c.intn("mode", 4) {
+			switch c.pick("mode", 4) {
 			case 0, 1:
 				b := flipIn(c, c.p.hdr, 0, len(c.p.hdr), "Meta.header")
 				c.setMeta(b, c.p.lc)
@@ -863,7 +877,7 @@ func init() {
 				}
 				return o
 			}
-			k := c.intn("field", 12)
+			k := c.pick("field", 12)
 			switch k {
 			case 0:
 				ph.Height++
@@ -897,7 +911,7 @@ func init() {
 			c.setMeta(b, c.p.lc)
 			c.detail = fmt.Sprintf("Meta.header re-marshalled with header field #%d altered", k)
 			// A consistent forgery: the provider also adapts the outer fields to the forged header.
-			if c.intn("consistent", 2) == 1 {
+			if c.pick("consistent", 2) == 1 {
 				if fh, err := cmttypes.HeaderFromProto(&ph); err == nil {
 					c.m.Hash = hash.LoadFromHexBytes(fh.Hash())
 					c.m.Height = fh.Height
@@ -939,7 +953,7 @@ func init() {
 				o[c.intn("i", len(o))] ^= c.bit("bit")
 				return o
 			}
-			switch c.intn("part", 4) {
+			switch c.pick("part", 4) {
 			case 0:
 				pc.BlockID.Hash = fl(pc.BlockID.Hash)
 				c.detail = "last commit block id hash: one bit flipped"
@@ -963,7 +977,7 @@ func init() {
 				return false
 			}
 			s := &pc.Signatures[i]
-			switch c.intn("field", 4) {
+			switch c.pick("field", 4) {
 			case 0:
 				old := s.BlockIdFlag
 				switch old {
@@ -977,7 +991,7 @@ func init() {
 					s.Signature = bytes.Repeat([]byte{9}, 64)
 					s.Timestamp = c.p.lb.Header.Time
 				}
-				if old != cmtproto.BlockIDFlagAbsent && c.intn("toabsent", 3) == 0 {
+				if old != cmtproto.BlockIDFlagAbsent && c.pick("toabsent", 3) == 0 {
 					*s = cmtproto.CommitSig{BlockIdFlag: cmtproto.BlockIDFlagAbsent}
 				}
 				c.detail = fmt.Sprintf("last commit sig %d: flag %d -> %d", i, old, s.BlockIdFlag)
@@ -999,7 +1013,7 @@ func init() {
 				if len(s.Signature) == 0 {
 					return false
 				}
-				switch c.intn("how", 3) {
+				switch c.pick("how", 3) {
 				case 0:
 					s.Signature = clone(s.Signature)
 					s.Signature[c.intn("i", len(s.Signature))] ^= c.bit("bit")
@@ -1016,7 +1030,7 @@ func init() {
 		{"lc-sig-list", func(c *bctx) bool {
 			pc := c.lcProto()
 			n := len(pc.Signatures)
-			switch c.intn("how", 5) {
+			switch c.pick("how", 5) {
 			case 0:
 				i, ok := c.sigIndex(pc)
 				if !ok {
@@ -1065,7 +1079,7 @@ func init() {
 		{"lc-wire", func(c *bctx) bool {
 			lc := clone(c.p.lc)
 			hc := c.p.commit
-			switch c.intn("how", 8) {
+			switch c.pick("how", 8) {
 			case 0: // a repeated scalar field: the last occurrence wins
 				v := uint64(rapid.SampledFrom([]int64{hc.Height + 1, 1, c.p.blk.Height}).Draw(c.t, "v"))
 				lc = append(lc, pbVarintField(1, v, 0)...)
@@ -1121,7 +1135,7 @@ func init() {
 			m := *c.other.blk
 			m.Meta = clone(c.other.blk.Meta)
 			c.detail = "honest answer of " + c.other.name
-			if c.intn("adapt", 2) == 1 {
+			if c.pick("adapt", 2) == 1 {
 				m.Height = c.p.blk.Height
 				m.StateRoot.Version = c.p.blk.StateRoot.Version
 				c.detail += " with height fields adapted"
@@ -1207,7 +1221,11 @@ func checkBlockMutant(t ev.Failer, rec *ev.Recorder, p *pair, m *consensus.Block
 		rec.Label("accepted_identical:no-op")
 	}
 	for _, r := range d.reenc {
-		rec.Label("accepted_identical:" + r + "[" + opLabel + "]")
+		if strings.Contains(opLabel, "+") {
+			rec.Label("accepted_identical:" + r + "[combination]")
+		} else {
+			rec.Label("accepted_identical:" + r + "[" + opLabel + "]")
+		}
 	}
 	return "accepted-identical", changed, true
 }
@@ -1254,7 +1272,7 @@ func TestC19BlockMutants(t *testing.T) {
 		nops := rapid.SampledFrom([]int{1, 1, 1, 1, 2}).Draw(t, "nops")
 		var names, details []string
 		for i := 0; i < nops; i++ {
-			op := blockOps[blockOpIdx[rapid.IntRange(0, len(blockOpIdx)-1).Draw(t, "op")]]
+			op := blockOps[blockOpIdx[pickUniform(t, "op", len(blockOpIdx))]]
 			c.detail = ""
 			if !op.f(c) {
 				rec.Discard("op-not-applicable:" + op.name)
@@ -1269,7 +1287,9 @@ func TestC19BlockMutants(t *testing.T) {
 		if !counted {
 			return
 		}
-		rec.Label("op:" + strings.Join(names, "+"))
+		for _, n := range names {
+			rec.Label("op:" + n)
+		}
 		if p == recorded {
 			rec.Label("base:recorded")
 		} else {
@@ -1355,7 +1375,6 @@ func TestC19LastCommitFields(t *testing.T) {
 		rec.Case(nontrivial, ev.Fingerprint(mu.desc), map[string]any{"mutation": mu.desc, "outcome": outcome})
 	}
 }
-
 
 // safely runs a call into the code under test and converts a panic into a value.
 func safely(f func() error) (err error, panicked any) {
@@ -1521,7 +1540,7 @@ func mutateTxs(t *rapid.T, honest, foreign [][]byte) (m [][]byte, op, desc strin
 	m = cloneTxs(honest)
 	n := len(m)
 	idx := func(l string) int { return rapid.IntRange(0, n-1).Draw(t, l) }
-	op = rapid.SampledFrom([]string{"drop", "insert-new", "insert-dup", "insert-empty", "swap", "alter-byte", "truncate", "extend", "clear", "concat", "split", "foreign", "rotate", "replace"}).Draw(t, "txop")
+	op = pickString(t, "txop", []string{"drop", "insert-new", "insert-dup", "insert-empty", "swap", "alter-byte", "truncate", "extend", "clear", "concat", "split", "foreign", "rotate", "replace"})
 	desc = op
 	switch op {
 	case "drop":
@@ -1730,7 +1749,7 @@ func mutateResults(t *rapid.T, b, other *txBase) (m *consensus.BlockResults, op,
 	idx := func(l string) int { return rapid.IntRange(0, n-1).Draw(t, l) }
 	ops := []string{"height", "code", "data", "gas-wanted", "gas-used", "log", "info", "codespace", "tx-events", "block-events",
 		"drop", "dup", "swap", "insert", "null-entry", "raw-bit", "raw-truncate", "raw-trailing", "meta-nil", "key-order", "other", "other-adapted", "code+data"}
-	op = rapid.SampledFrom(ops).Draw(t, "resop")
+	op = pickString(t, "resop", ops)
 	desc = op
 	reenc := true
 	switch op {
@@ -1751,7 +1770,7 @@ func mutateResults(t *rapid.T, b, other *txBase) (m *consensus.BlockResults, op,
 		case "code":
 			r.Code = rapid.SampledFrom([]uint32{r.Code + 1, r.Code ^ 1, 0, 1 << 31}).Draw(t, "v")
 		case "data":
-			switch rapid.IntRange(0, 3).Draw(t, "how") {
+			switch pickUniform(t, "how", 4) {
 			case 0:
 				r.Data = append(clone(r.Data), 0)
 			case 1:
@@ -1787,7 +1806,7 @@ func mutateResults(t *rapid.T, b, other *txBase) (m *consensus.BlockResults, op,
 			r.Codespace = codespaces[(rapid.IntRange(1, 3).Draw(t, "cs"))] + "x"
 		case "tx-events":
 			switch {
-			case len(r.Events) > 0 && rapid.IntRange(0, 1).Draw(t, "how") == 0:
+			case len(r.Events) > 0 && pickUniform(t, "how", 2) == 0:
 				r.Events = r.Events[1:]
 			default:
 				r.Events = append(r.Events, abci.Event{Type: "forged", Attributes: []abci.EventAttribute{{Key: "k", Value: "v"}}})
@@ -1799,7 +1818,7 @@ func mutateResults(t *rapid.T, b, other *txBase) (m *consensus.BlockResults, op,
 		desc = fmt.Sprintf("result %d of %d: %s altered", i, n, op)
 	case "block-events":
 		forged := abci.Event{Type: "forged"}
-		if rapid.IntRange(0, 1).Draw(t, "which") == 0 {
+		if pickUniform(t, "which", 2) == 0 {
 			meta.BeginBlockEvents = append(meta.BeginBlockEvents, forged)
 		} else if len(meta.EndBlockEvents) > 0 {
 			meta.EndBlockEvents = meta.EndBlockEvents[1:]
@@ -1947,7 +1966,7 @@ func TestC19TxAndResults(t *testing.T) {
 			ev.Violation(t, "honest-rejected", "%s: honest block results rejected: %v %v", b.name, err, p)
 		}
 
-		if rapid.IntRange(0, 2).Draw(t, "kind") == 0 {
+		if pickUniform(t, "kind", 3) == 0 {
 			// ---- transactions
 			m, op, desc, ok := mutateTxs(t, b.txs, other.txs)
 			if !ok {
@@ -2121,7 +2140,9 @@ func TestC19ResultsFields(t *testing.T) {
 		}},
 		{"result 0: gas wanted + 1", func(m *cmtapi.BlockResultsMeta, _ *consensus.BlockResults) { m.TxsResults[0].GasWanted++ }},
 		{"result 0: gas used + 1", func(m *cmtapi.BlockResultsMeta, _ *consensus.BlockResults) { m.TxsResults[0].GasUsed++ }},
-		{"last result dropped", func(m *cmtapi.BlockResultsMeta, _ *consensus.BlockResults) { m.TxsResults = m.TxsResults[:len(m.TxsResults)-1] }},
+		{"last result dropped", func(m *cmtapi.BlockResultsMeta, _ *consensus.BlockResults) {
+			m.TxsResults = m.TxsResults[:len(m.TxsResults)-1]
+		}},
 		{"height + 1", func(_ *cmtapi.BlockResultsMeta, r *consensus.BlockResults) { r.Height++ }},
 	}
 	if _, err := stateless.VerifVerifyBlockResults(b.results, b.resultsHash, b.lb); err != nil {
@@ -2264,8 +2285,8 @@ func mutateProof(t *rapid.T, honest []byte, l *signedList, i int) (out []byte, o
 	if err := lenient.Unmarshal(honest, &pv); err != nil {
 		ev.Infra(t, "honest proof does not decode: %v", err)
 	}
-	op = rapid.SampledFrom([]string{"bit", "bit", "byte", "truncate", "append", "insert", "total", "index", "leafhash", "aunt-drop", "aunt-add", "aunt-swap", "aunt-bit",
-		"reencode-order", "reencode-width", "empty"}).Draw(t, "pop")
+	op = pickString(t, "pop", []string{"bit", "bit", "byte", "truncate", "append", "insert", "total", "index", "leafhash", "aunt-drop", "aunt-add", "aunt-swap", "aunt-bit",
+		"reencode-order", "reencode-width", "empty"})
 	flip := func(b []byte) []byte {
 		o := clone(b)
 		if len(o) == 0 {
@@ -2295,7 +2316,7 @@ func mutateProof(t *rapid.T, honest []byte, l *signedList, i int) (out []byte, o
 	case "index":
 		pv.Index = rapid.SampledFrom([]int64{pv.Index + 1, pv.Index - 1, 0, pv.Total - 1, pv.Total, -1, pv.Index ^ 1}).Draw(t, "v")
 	case "leafhash":
-		if rapid.IntRange(0, 1).Draw(t, "how") == 0 || len(l.raw) < 2 {
+		if pickUniform(t, "how", 2) == 0 || len(l.raw) < 2 {
 			pv.LeafHash = flip(pv.LeafHash)
 		} else {
 			// the leaf hash of another member
@@ -2370,7 +2391,7 @@ func TestC19TxProof(t *testing.T) {
 		if n > 0 && rapid.IntRange(0, 3).Draw(t, "bkind") > 0 {
 			b = l.clone()
 			i := rapid.IntRange(0, n-1).Draw(t, "bi")
-			switch rapid.IntRange(0, 4).Draw(t, "bop") {
+			switch pickUniform(t, "bop", 5) {
 			case 0:
 				b.txs, b.raw = append(b.txs[:i:i], b.txs[i+1:]...), append(b.raw[:i:i], b.raw[i+1:]...)
 				bdesc = fmt.Sprintf("L without tx %d", i)
@@ -2654,7 +2675,7 @@ func TestC19StateRoot(t *testing.T) {
 		m := cloneTxs(b.txs)
 		ops := []string{"resign-nonproposer", "forge-root-nonproposer", "forge-root-keep-sig", "append-forged", "replace-forged", "only-forged", "drop-meta", "swap-meta",
 			"bitflip-meta", "reencode-meta", "foreign-list", "empty", "forge-root-proposer-key", "bitflip-other"}
-		op := rapid.SampledFrom(ops).Draw(t, "op")
+		op := pickString(t, "op", ops)
 		_, _, _, honestRootInTx := metaTxInfo(honestMeta, b.proposer)
 		var st transaction.SignedTransaction
 		_ = lenient.Unmarshal(honestMeta, &st)
@@ -2759,4 +2780,399 @@ func TestC19StateRoot(t *testing.T) {
 		}
 		rec.Case(structurallyValid, ev.Fingerprint("root", txsKey(b.txs), txsKey(m), b.lb.Height), sample)
 	})
+}
+
+// ------------------------------------------------------------------------------------------
+// (e) next validator set (Core.GetValidators for a height one above the verified header)
+// ------------------------------------------------------------------------------------------
+
+type valBase struct {
+	name   string
+	vals   *consensus.Validators // honest answer for height lb.Height+1
+	lb     *cmttypes.LightBlock  // its NextValidatorsHash binds the set
+	honest *cmtproto.ValidatorSet
+}
+
+func decodeValsProto(raw []byte) (*cmtproto.ValidatorSet, error) {
+	var pvs cmtproto.ValidatorSet
+	if err := pvs.Unmarshal(raw); err != nil {
+		return nil, err
+	}
+	// structural requirements every consumer has
+	if _, err := cmttypes.ValidatorSetFromProto(&pvs); err != nil {
+		return nil, err
+	}
+	return &pvs, nil
+}
+
+func newValBase(name string, vs *cmttypes.ValidatorSet, lb *cmttypes.LightBlock) (*valBase, error) {
+	v, err := light.EncodeValidators(vs, lb.Height+1)
+	if err != nil {
+		return nil, err
+	}
+	pvs, err := decodeValsProto(v.Meta)
+	if err != nil {
+		return nil, err
+	}
+	return &valBase{name: name, vals: v, lb: lb, honest: pvs}, nil
+}
+
+func genValBase(t *rapid.T, label string) *valBase {
+	r := newPrng(rapid.Uint64().Draw(t, label+"vseed"))
+	n := rapid.IntRange(1, 6).Draw(t, label+"nvals")
+	var vals []*cmttypes.Validator
+	for i := 0; i < n; i++ {
+		pk := cmted25519.PubKey(r.bytes(32))
+		vals = append(vals, cmttypes.NewValidator(pk, int64(1+r.intn(1000))))
+	}
+	vs := cmttypes.NewValidatorSet(vals)
+	for i := 0; i < r.intn(4); i++ {
+		vs.IncrementProposerPriority(1)
+	}
+	h := rapid.SampledFrom([]int64{1, 5, 25300000}).Draw(t, label+"vheight")
+	lb := &cmttypes.LightBlock{SignedHeader: &cmttypes.SignedHeader{Header: &cmttypes.Header{Height: h, NextValidatorsHash: vs.Hash()}}}
+	b, err := newValBase(fmt.Sprintf("synth-vals(n=%d,h=%d)", n, h), vs, lb)
+	if err != nil {
+		ev.Infra(t, "synthesized validator set: %v", err)
+	}
+	return b
+}
+
+func pbValKey(v *cmtproto.Validator) (addr, pk []byte, power, prio int64) {
+	if v == nil {
+		return nil, nil, 0, 0
+	}
+	pkb, _ := v.PubKey.Marshal()
+	return v.Address, pkb, v.VotingPower, v.ProposerPriority
+}
+
+// diffVals compares a validators answer with the honest one, field by field.
+func diffVals(b *valBase, m *consensus.Validators) (decodable bool, why string, classes []string, detail string, reenc bool) {
+	add := func(c, format string, args ...any) {
+		for _, x := range classes {
+			if x == c {
+				return
+			}
+		}
+		classes = append(classes, c)
+		if detail == "" {
+			detail = c + ": " + fmt.Sprintf(format, args...)
+		}
+	}
+	if m.Height != b.vals.Height {
+		add("validators-height", "%d -> %d", b.vals.Height, m.Height)
+	}
+	pvs, err := decodeValsProto(m.Meta)
+	if err != nil {
+		return false, err.Error(), classes, detail, false
+	}
+	h := b.honest
+	if len(pvs.Validators) != len(h.Validators) {
+		add("validators-count", "%d -> %d", len(h.Validators), len(pvs.Validators))
+	} else {
+		for i := range pvs.Validators {
+			a1, k1, p1, r1 := pbValKey(h.Validators[i])
+			a2, k2, p2, r2 := pbValKey(pvs.Validators[i])
+			if !bytes.Equal(k1, k2) {
+				add("validators-pubkey", "validator %d", i)
+			}
+			if !bytes.Equal(a1, a2) {
+				add("validators-address", "validator %d", i)
+			}
+			if p1 != p2 {
+				add("validators-power", "validator %d: %d -> %d", i, p1, p2)
+			}
+			if r1 != r2 {
+				add("validators-priority", "validator %d: proposer priority %d -> %d", i, r1, r2)
+			}
+		}
+	}
+	a1, k1, p1, r1 := pbValKey(h.Proposer)
+	a2, k2, p2, r2 := pbValKey(pvs.Proposer)
+	if !bytes.Equal(a1, a2) || !bytes.Equal(k1, k2) || p1 != p2 || r1 != r2 {
+		add("validators-proposer", "proposer %X(power %d, priority %d) -> %X(power %d, priority %d)", a1, p1, r1, a2, p2, r2)
+	}
+	// total_voting_power is recomputed by every decoder (ValidatorSetFromProto); the raw field has no reader
+	return true, "", classes, detail, !bytes.Equal(m.Meta, b.vals.Meta)
+}
+
+func mutateVals(t *rapid.T, b, other *valBase) (m *consensus.Validators, op, desc string, ok bool) {
+	m = &consensus.Validators{Height: b.vals.Height, Meta: clone(b.vals.Meta)}
+	var pvs cmtproto.ValidatorSet
+	if err := pvs.Unmarshal(b.vals.Meta); err != nil {
+		ev.Infra(t, "honest validators: %v", err)
+	}
+	n := len(pvs.Validators)
+	idx := func(l string) int { return rapid.IntRange(0, n-1).Draw(t, l) }
+	op = pickString(t, "valop", []string{"height", "power", "pubkey", "pubkey+address", "address", "priority", "proposer-other", "proposer-fields", "total-power",
+		"drop", "dup", "swap", "add", "raw-bit", "unknown-field", "other", "other-adapted", "truncate"})
+	desc = op
+	structured := true
+	switch op {
+	case "height":
+		structured = false
+		m.Height = rapid.SampledFrom([]int64{b.vals.Height + 1, b.vals.Height - 1, b.lb.Height, 0}).Draw(t, "h")
+		desc = fmt.Sprintf("validators height %d -> %d", b.vals.Height, m.Height)
+	case "power":
+		i := idx("i")
+		pvs.Validators[i].VotingPower += rapid.SampledFrom([]int64{1, -1, 1000}).Draw(t, "d")
+		desc = fmt.Sprintf("validator %d voting power altered", i)
+	case "pubkey", "pubkey+address":
+		i := idx("i")
+		pk := clone(pvs.Validators[i].PubKey.GetEd25519())
+		pk[rapid.IntRange(0, 31).Draw(t, "k")] ^= byte(1) << uint(rapid.IntRange(0, 7).Draw(t, "bit"))
+		npk, _ := cmtcryptoenc.PubKeyToProto(cmted25519.PubKey(pk))
+		pvs.Validators[i].PubKey = npk
+		if op == "pubkey+address" {
+			pvs.Validators[i].Address = cmted25519.PubKey(pk).Address()
+		}
+		desc = fmt.Sprintf("validator %d public key bit flipped (%s)", i, op)
+	case "address":
+		i := idx("i")
+		a := clone(pvs.Validators[i].Address)
+		a[rapid.IntRange(0, len(a)-1).Draw(t, "k")] ^= 1
+		pvs.Validators[i].Address = a
+		desc = fmt.Sprintf("validator %d address bit flipped", i)
+	case "priority":
+		i := idx("i")
+		pvs.Validators[i].ProposerPriority += rapid.SampledFrom([]int64{1, -1, 1 << 40}).Draw(t, "d")
+		desc = fmt.Sprintf("validator %d proposer priority altered", i)
+	case "proposer-other":
+		if n < 2 {
+			return nil, op, op, false
+		}
+		i := idx("i")
+		if bytes.Equal(pvs.Validators[i].Address, pvs.Proposer.Address) {
+			return nil, op, op, false
+		}
+		cp := *pvs.Validators[i]
+		pvs.Proposer = &cp
+		desc = fmt.Sprintf("proposer := validator %d", i)
+	case "proposer-fields":
+		cp := *pvs.Proposer
+		if pickUniform(t, "which", 2) == 0 {
+			cp.VotingPower++
+		} else {
+			cp.ProposerPriority--
+		}
+		pvs.Proposer = &cp
+		desc = "proposer entry: power/priority altered"
+	case "total-power":
+		pvs.TotalVotingPower += rapid.SampledFrom([]int64{1, -1, 1 << 50}).Draw(t, "d")
+		desc = "total_voting_power field altered"
+	case "drop":
+		if n < 2 {
+			return nil, op, op, false
+		}
+		i := idx("i")
+		pvs.Validators = append(pvs.Validators[:i:i], pvs.Validators[i+1:]...)
+		desc = fmt.Sprintf("validator %d of %d dropped", i, n)
+	case "dup":
+		pvs.Validators = append(pvs.Validators, pvs.Validators[idx("i")])
+		desc = "a validator appended again"
+	case "swap":
+		if n < 2 {
+			return nil, op, op, false
+		}
+		i, j := idx("i"), idx("j")
+		if i == j {
+			return nil, op, op, false
+		}
+		pvs.Validators[i], pvs.Validators[j] = pvs.Validators[j], pvs.Validators[i]
+		desc = fmt.Sprintf("validators %d and %d swapped", i, j)
+	case "add":
+		pk := cmted25519.PubKey(newPrng(rapid.Uint64().Draw(t, "newval")).bytes(32))
+		ppk, _ := cmtcryptoenc.PubKeyToProto(pk)
+		pvs.Validators = append(pvs.Validators, &cmtproto.Validator{Address: pk.Address(), PubKey: ppk, VotingPower: 1})
+		desc = "a new validator appended"
+	case "raw-bit":
+		structured = false
+		pos := rapid.IntRange(0, len(m.Meta)-1).Draw(t, "pos")
+		bit := byte(1) << uint(rapid.IntRange(0, 7).Draw(t, "bit"))
+		m.Meta[pos] ^= bit
+		desc = fmt.Sprintf("validators meta byte %d of %d ^= 0x%02x", pos, len(m.Meta), bit)
+	case "truncate":
+		structured = false
+		m.Meta = m.Meta[:len(m.Meta)-1-rapid.IntRange(0, len(m.Meta)-1).Draw(t, "k")]
+		desc = "validators meta truncated"
+	case "unknown-field":
+		structured = false
+		m.Meta = append(m.Meta, pbVarintField(15, 1, 0)...)
+		desc = "validators meta + unknown protobuf field"
+	case "other", "other-adapted":
+		structured = false
+		m = &consensus.Validators{Height: other.vals.Height, Meta: clone(other.vals.Meta)}
+		desc = "validators answer of " + other.name
+		if op == "other-adapted" {
+			m.Height = b.vals.Height
+			desc += " with the height adapted"
+		}
+	}
+	if structured {
+		raw, err := pvs.Marshal()
+		if err != nil {
+			ev.Infra(t, "marshal validators: %v", err)
+		}
+		m.Meta = raw
+	}
+	return m, op, desc, m.Height != b.vals.Height || !bytes.Equal(m.Meta, b.vals.Meta)
+}
+
+func checkValsMutant(t ev.Failer, rec *ev.Recorder, b *valBase, m *consensus.Validators, desc string) (outcome string, nontrivial, counted bool) {
+	decodable, why, classes, detail, reenc := diffVals(b, m)
+	if decodable && len(classes) > 0 {
+		nExcl, rest := 0, 0
+		for _, c := range classes {
+			if excluded("unbound-" + c) {
+				nExcl++
+			} else {
+				rest++
+			}
+		}
+		if nExcl > 0 && rest == 0 {
+			rec.Discard("excluded:unbound-validators")
+			return "", false, false
+		}
+	}
+	err, p := safely(func() error { return stateless.VerifVerifyNextValidators(m, b.lb) })
+	if p != nil {
+		ev.Violation(t, "panic-verifyNextValidators", "%s: panic %v on: %s", b.name, p, desc)
+	}
+	if err != nil {
+		msg := err.Error()
+		if i := strings.Index(msg, ":"); i > 0 {
+			msg = msg[:i]
+		}
+		rec.Label("rejected:" + msg)
+		return "rejected", decodable, true
+	}
+	if !decodable {
+		ev.Violation(t, "accepted-undecodable", "%s: verifyNextValidators accepted an answer the independent decoder rejects (%s); mutation: %s", b.name, why, desc)
+	}
+	for _, c := range classes {
+		if !excluded("unbound-" + c) {
+			ev.Violation(t, "unbound-"+c, "%s: verifyNextValidators ACCEPTED an answer that differs from the honest one in [%s] (first: %s); mutation: %s",
+				b.name, strings.Join(classes, ","), detail, desc)
+		}
+	}
+	if reenc {
+		rec.Label("accepted_identical:reencoded-or-unread-field")
+	} else {
+		rec.Label("accepted_identical:no-op")
+	}
+	return "accepted-identical", true, true
+}
+
+const valsRule = "case = honest validators answer for height h+1 (recorded: validator set of light block 25300001 against light block 25300000; or synthesized: 1-6 ed25519 " +
+	"validators, CometBFT proposer rotation, header NextValidatorsHash computed by CometBFT) encoded with the node's own EncodeValidators + one alteration: height, per-validator " +
+	"voting power / public key (with and without a matching address) / address / proposer priority, proposer replaced by another member, proposer entry fields, " +
+	"total_voting_power, drop/dup/swap/add validator, raw bit, truncation, unknown protobuf field, answer of another set (also with adapted height); oracle = honest verifies " +
+	"AND mutant rejected OR field-wise identical under an independent protobuf decode (count, every validator's address, key, power, priority, the proposer entry); " +
+	"non-trivial = mutant that still decodes to a structurally valid validator set; distinct = hash of base and mutant"
+
+func TestC19Validators(t *testing.T) {
+	rec := ev.New("C19", "TestC19Validators", valsRule,
+		"total_voting_power of the encoded set is recomputed by every decoder (ValidatorSetFromProto) and has no reader; a change of only that raw field is counted as identical")
+	defer rec.Flush()
+	fx, err := loadFixtures()
+	if err != nil {
+		ev.Infra(t, "fixtures: %v", err)
+	}
+	recorded, err := newValBase("recorded(validators 25300001)", fx.lb2.ValidatorSet, fx.lb)
+	if err != nil {
+		ev.Infra(t, "recorded validators: %v", err)
+	}
+	var cur string
+	ev.Trace = func() any { return cur }
+	rapid.Check(t, func(t *rapid.T) {
+		cur = ""
+		var b *valBase
+		if rapid.IntRange(0, 3).Draw(t, "base") == 0 {
+			b = recorded
+		} else {
+			b = genValBase(t, "a-")
+		}
+		other := genValBase(t, "b-")
+		if err, p := safely(func() error { return stateless.VerifVerifyNextValidators(b.vals, b.lb) }); err != nil || p != nil {
+			ev.Violation(t, "honest-rejected", "%s: honest validators rejected: %v %v", b.name, err, p)
+		}
+		m, op, desc, ok := mutateVals(t, b, other)
+		if !ok {
+			rec.Discard("op-not-applicable:" + op)
+			return
+		}
+		cur = b.name + ": " + desc
+		outcome, nontrivial, counted := checkValsMutant(t, rec, b, m, desc)
+		if !counted {
+			return
+		}
+		rec.Label("op:" + op)
+		var sample any
+		if nontrivial && rec.WantSample() {
+			sample = map[string]any{"base": b.name, "mutation": desc, "outcome": outcome}
+		}
+		rec.Case(nontrivial, ev.Fingerprint("vals", b.name, b.lb.NextValidatorsHash.Bytes(), m.Height, m.Meta), sample)
+	})
+}
+
+// TestC19ValidatorsFields: deterministic minimal mutants of the recorded validator set, one shard per class.
+func TestC19ValidatorsFields(t *testing.T) {
+	rec := ev.New("C19", "TestC19ValidatorsFields",
+		"deterministic single-field mutants of the recorded validator set 25300001 against light block 25300000: validator 0 proposer priority+1, proposer := another "+
+			"member, validator 0 voting power+1, height+1, honest set against light block 25300001; oracle as in TestC19Validators; sharded by class")
+	defer rec.Flush()
+	fx, err := loadFixtures()
+	if err != nil {
+		ev.Infra(t, "fixtures: %v", err)
+	}
+	b, err := newValBase("recorded(validators 25300001)", fx.lb2.ValidatorSet, fx.lb)
+	if err != nil {
+		ev.Infra(t, "recorded validators: %v", err)
+	}
+	shard, _ := strconv.Atoi(os.Getenv("VERIF_SHARD"))
+	nshards, _ := strconv.Atoi(os.Getenv("VERIF_NSHARDS"))
+	if nshards == 0 {
+		nshards = 1
+	}
+	if err := stateless.VerifVerifyNextValidators(b.vals, b.lb); err != nil {
+		ev.Violation(t, "honest-rejected", "recorded validator set 25300001 rejected against light block 25300000: %v", err)
+	}
+	if err := stateless.VerifVerifyNextValidators(b.vals, fx.lb2); err == nil {
+		ev.Violation(t, "unbound-validators-height", "validator set 25300001 accepted as the successor set of light block 25300001")
+	}
+	rec.Case(true, ev.Fingerprint("other-height"), "honest validators 25300001 against light block 25300001: rejected")
+	muts := []struct {
+		desc string
+		f    func(pvs *cmtproto.ValidatorSet, m *consensus.Validators)
+	}{
+		{"validator 0: proposer priority + 1", func(pvs *cmtproto.ValidatorSet, _ *consensus.Validators) { pvs.Validators[0].ProposerPriority++ }},
+		{"proposer := another member of the set", func(pvs *cmtproto.ValidatorSet, _ *consensus.Validators) {
+			for _, v := range pvs.Validators {
+				if !bytes.Equal(v.Address, pvs.Proposer.Address) {
+					cp := *v
+					pvs.Proposer = &cp
+					return
+				}
+			}
+		}},
+		{"validator 0: voting power + 1", func(pvs *cmtproto.ValidatorSet, _ *consensus.Validators) { pvs.Validators[0].VotingPower++ }},
+		{"height + 1", func(_ *cmtproto.ValidatorSet, m *consensus.Validators) { m.Height++ }},
+	}
+	for i, mu := range muts {
+		if i%nshards != shard%nshards {
+			continue
+		}
+		var pvs cmtproto.ValidatorSet
+		if err := pvs.Unmarshal(b.vals.Meta); err != nil {
+			ev.Infra(t, "honest validators: %v", err)
+		}
+		m := &consensus.Validators{Height: b.vals.Height}
+		mu.f(&pvs, m)
+		m.Meta, _ = pvs.Marshal()
+		outcome, nontrivial, counted := checkValsMutant(t, rec, b, m, mu.desc)
+		if !counted {
+			continue
+		}
+		rec.Case(nontrivial, ev.Fingerprint(mu.desc), map[string]any{"mutation": mu.desc, "outcome": outcome})
+	}
 }
